@@ -164,8 +164,8 @@ class Check(FormulaCheck):
         q = tier == 'quick'
         specs = [{'campaign': 'sentinels'}]
         for i in range(16):
-            specs.append({'campaign': 'order', 'seed': seed, 'n': 4000 if q else 30000, 'i': i})
-            specs.append({'campaign': 'setters', 'seed': seed, 'n': 2500 if q else 15000, 'i': i})
+            specs.append({'campaign': 'order', 'seed': seed, 'n': 4000 if q else 110000, 'i': i})
+            specs.append({'campaign': 'setters', 'seed': seed, 'n': 2500 if q else 60000, 'i': i})
         return specs
 
     # ------------------------------------------------------------------ order / payload
